@@ -29,6 +29,8 @@ from .guards import atoms
 from . import norm
 
 RAISE = "<raise>"
+BREAK = "<break>"
+CONTINUE = "<continue>"
 
 
 @dataclass
@@ -48,7 +50,7 @@ class Path:
         return text_pol in self.conds
 
     def ret_text(self) -> Optional[str]:
-        if self.ret is None or self.ret == RAISE:
+        if self.ret is None or isinstance(self.ret, str):
             return self.ret
         return text(self.ret)
 
@@ -212,9 +214,12 @@ class PathEval:
         self.done: List[Path] = []
         self.truncated = False
 
-    def run(self) -> List[Path]:
+    def run(self, body=None) -> List[Path]:
+        """paths through the function body, or through the given statement list
+        (e.g. the body of a loop: break/continue then end a path)"""
         p = Path(env=dict(self.bindings))
-        body = [s for s in self.func.body if not (isinstance(s, ast.Expr) and isinstance(s.value, ast.Constant))]
+        body = self.func.body if body is None else body
+        body = [s for s in body if not (isinstance(s, ast.Expr) and isinstance(s.value, ast.Constant))]
         for st in self.block(body, [p]):
             st.end = None
             self.done.append(st)
@@ -224,12 +229,16 @@ class PathEval:
     def sub(self, e, p: Path):
         if e is None:
             return None
-        x = _Sub(p.env).visit(clone_ast(e))
+        c0 = clone_ast(e)
+        marked = [n for n in ast.walk(c0) if isinstance(n, ast.Call)]
+        for n in marked:
+            n._orig = True  # calls written in this expression (not the ones substituted into it)
+        x = _Sub(p.env).visit(c0)
+        for c in ast.walk(x):
+            if isinstance(c, ast.Call) and getattr(c, "_orig", False):
+                p.calls.append(c)
         if self.post is not None:
             x = self.post(x)
-        for c in ast.walk(x):
-            if isinstance(c, ast.Call):
-                p.calls.append(c)
         return x
 
     def block(self, stmts, states: List[Path]) -> List[Path]:
@@ -311,15 +320,30 @@ class PathEval:
             for nme in bound:
                 p.env[nme] = ast.Name(id=f"{nme}%L{s.lineno}", ctx=ast.Load())
             # record the calls of the body once (loop variable opaque); returns inside end the path there
+            n_done = len(self.done)
             inner = self.block(s.body, [p.fork()])
+            # paths of the body that ended in break/continue do not leave the function
+            ended = [q for q in self.done[n_done:] if q.ret in (BREAK, CONTINUE)]
+            self.done = self.done[:n_done] + [q for q in self.done[n_done:] if q.ret not in (BREAK, CONTINUE)]
             out = [p]
-            for q in inner:
+            qs = inner + ended
+            base_keys = set(p.stores)
+            for q in qs[:1]:
                 p.calls = q.calls
-                p.stores.update(q.stores)
                 for k, v in q.env.items():
                     if k in bound or k not in p.env:
                         p.env[k] = ast.Name(id=f"{k}%L{s.lineno}", ctx=ast.Load())
-                break
+            # stores of the body: kept when every path through the body performs them
+            # with the same value, otherwise marked conditional
+            allk = set()
+            for q in qs:
+                allk |= set(q.stores) - base_keys
+            for k in sorted(allk):
+                vals = [text(q.stores[k]) if k in q.stores else None for q in qs]
+                if all(v == vals[0] and v is not None for v in vals):
+                    p.stores[k] = qs[0].stores[k]
+                else:
+                    p.stores[k] = ast.Name(id="%conditional", ctx=ast.Load())
             return self.block(s.orelse, out)
         if isinstance(s, ast.With):
             for it in s.items:
@@ -334,10 +358,19 @@ class PathEval:
         if isinstance(s, (ast.FunctionDef, ast.AsyncFunctionDef, ast.ClassDef)):
             p.env[s.name] = ast.Name(id=f"{s.name}%def", ctx=ast.Load())
             return [p]
-        return [p]  # pass, import, global, break/continue (inside opaque loops)
+        if isinstance(s, (ast.Break, ast.Continue)):
+            p.ret = BREAK if isinstance(s, ast.Break) else CONTINUE
+            p.end = s
+            self.done.append(p)
+            return []
+        return [p]  # pass, import, global
 
     def assign(self, t, v, p: Path):
         if isinstance(t, ast.Name):
+            if _empty_container(v):
+                # an accumulator (`res = []`) is filled in place later: keep the name
+                p.env.pop(t.id, None)
+                return
             p.env[t.id] = v
         elif isinstance(t, (ast.Tuple, ast.List)):
             if isinstance(v, (ast.Tuple, ast.List)) and len(v.elts) == len(t.elts):
@@ -349,6 +382,16 @@ class PathEval:
         else:
             tt = text(self.sub(_as_load(t), p))
             p.stores[tt] = v
+
+
+def _empty_container(v) -> bool:
+    if isinstance(v, (ast.List, ast.Set, ast.Tuple)) and not v.elts:
+        return True
+    if isinstance(v, ast.Dict) and not v.keys:
+        return True
+    if isinstance(v, ast.Call) and isinstance(v.func, ast.Name) and v.func.id in ("list", "dict", "set", "OrderedDict", "defaultdict") and not v.args and not v.keywords:
+        return True
+    return False
 
 
 def _as_load(t: ast.AST) -> ast.AST:
